@@ -6,7 +6,8 @@ from oracle_util import *  # noqa
 from protocol import from_real
 
 ID = "C16"
-LEAN_MODULE = ["SCoda.Props.C16", "SCoda.Props.C16b", "SCoda.Props.Purity"]
+LEAN_MODULE = ["SCoda.Props.C16", "SCoda.Props.C16b", "SCoda.Props.Purity", "SCoda.Props.C16c", "SCoda.Props.C16cW", "SCoda.Props.WrapTie", "SCoda.Props.ElemTie"]
+EXTRA_TARGETS = ["heapdriver"]
 CLAUSES = [
     ("a message-wise copy holds the same message values as its original (equals: C17.refl)", ["SCoda.C16.copy_derive", "SCoda.C16.copyAll_spec"]),
     ("a fresh-allocating derivation shares no message with anything that existed; sharing (the unrepaired split, D13) is not a derivation",
@@ -20,6 +21,25 @@ CLAUSES = [
      "harness and a walk of the whole mutable object graph reachable from either side",
      ["SCoda.C16.alias_cert_closed", "SCoda.C16.derivations_return_fresh", "SCoda.C16.derivations_seen", "SCoda.C16.sources_seen",
       "SCoda.C16.no_global_state", "SCoda.Purity.routes_write_nothing_shared", "SCoda.Purity.purity_cert_closed"]),
+    ("CONCRETE HEAP (audit A2; Model/HeapOps.lean, tied by the heap-history correspondence: real objects with id() renamed by first occurrence against the model, "
+     "line by line): message cells, view objects (an AbsoluteSequence / RelativeSequence with its _messages list), Sequence / Bar / Track / Composition cells, bump "
+     "allocation, 46 concrete operations (every derivation route, both conversions, in-place mutators, rebuilders, the sharers concatenate / merge / to_sequence, equals and "
+     "the pairing helpers that sort in place, scale on both sides of 1, edits through the iterators), every value-dependent decision taken from an arbitrary oracle. "
+     "PROVED from the operation definitions, for every oracle: each derivation route returns only cells allocated by the call and writes nothing that existed "
+     "(split: writes only what the source reaches — it may regenerate the source's stale relative view); every operation writes only what its receiver and "
+     "object-valued arguments reach (frame); for ANY history of those operations on one side, every cell reachable from the other side is unchanged, hence both views' "
+     "message values and both flags of every sequence there, and the two sides stay disjoint — in both directions, and step by step for any interleaving; the copy's "
+     "snapshot equals the original's; the wrapper invariant of the untouched side holds after iff it held before. Negative control: with the UNREPAIRED split (pieces "
+     "share message cells, D13) independence is refuted by a kernel-checked history (piece.set_channel(5))",
+     ["SCoda.C16c.derive_fresh_msgCopy", "SCoda.C16c.derive_fresh_seqCopy", "SCoda.C16c.derive_fresh_barCopy", "SCoda.C16c.derive_fresh_trkCopy",
+      "SCoda.C16c.derive_fresh_cmpCopy", "SCoda.C16c.derive_fresh_splitBars", "SCoda.C16c.derive_fresh_cmpFromSequences", "SCoda.C16c.derive_fresh_split",
+      "SCoda.C16c.op_frame", "SCoda.C16c.independent", "SCoda.C16c.run_allocAll", "SCoda.C16c.interleaved_independent", "SCoda.C16c.derive_sep",
+      "SCoda.C16c.derived_independent", "SCoda.C16c.copy_equal", "SCoda.C16c.copy_equal_bar", "SCoda.C16c.copy_equal_trk", "SCoda.C16c.copy_equal_cmp",
+      "SCoda.C16c.split_independent", "SCoda.C16c.unrepaired_split_not_independent", "SCoda.C16cW.toSeq_copy", "SCoda.C16cW.copy_equal_content",
+      "SCoda.C16cW.independent_views_agree"]),
+    ("TIE BY TRANSLATION (value level): Sequence.copy / split and Bar / Track / Composition.copy as re-translated from the source on every run; Sequence.copy copies exactly "
+     "the fresh views, Bar.copy is a new bar constructed from a copy of the sequence",
+     ["SCoda.WrapTie.copy_eq", "SCoda.WrapTie.split_eq", "SCoda.ElemTie.barCopy_toBar", "SCoda.ElemTie.barCopy_constructed"]),
 ]
 RULE = ("originals (<=6 notes, 1-2 channels, signatures) x derivation routes (Sequence.copy, split, sequences_split_bars with "
         "either re-quantisation setting, Bar.copy, Track.copy, Composition.copy) x histories of <=8 public operations on either "
@@ -196,8 +216,19 @@ def setup(ctx):
     ctx.oracle("independent", o_independent)
 
 
+def heap_correspondence(ctx):
+    """identity-level correspondence of the concrete heap model (Model/HeapOps.lean) with the real objects"""
+    import heap_corr
+    n, skipped, bad = heap_corr.run_cases(ctx.n(150, 3000), ctx.seed + 16)
+    ctx.count("heap-histories:compared", n)
+    ctx.count("heap-histories:skipped(value-keyed oracle conflict or value exception)", skipped)
+    ctx.extra_checked = getattr(ctx, "extra_checked", 0) + n
+    ctx.extra_mismatches = getattr(ctx, "extra_mismatches", []) + bad
+
+
 def generate(ctx):
     rng = ctx.rng
+    heap_correspondence(ctx)
     for i in range(ctx.n(200, 4000)):
         a, notes = G.gen_wf_abs(rng, n_notes=rng.randint(1, 6), channels=rng.choice([(0,), (0,), (0, 1)]), max_tick=150, max_dur=60,
                                 pitches=[60, 62, 64, 66])
